@@ -400,7 +400,7 @@ func runExec(c *Ctx) {
 	// ---- X7: the Result handed to the output mapper is the one the executor just returned for that vertex
 	// (run-once memoization lives inside the executor; there is no per-call cache of converter results)
 	if om := c.P.MustRole("outputMapper"); om != nil {
-		for _, ci := range core.Calls(res) {
+		for _, ci := range p.RegionCalls(res) {
 			if ci.Common().StaticCallee() != om {
 				continue
 			}
